@@ -288,7 +288,11 @@ func QualifierParser(prefix string) pars.Parser {
 
 	quotedParser := quotedQualifierParser(prefix)
 	literalParser := literalQualifierParser(prefix)
-	toggleParser := pars.EOL
+	toggleParser := pars.AsParser(pars.EOL).Map(func(result *pars.Result) error {
+		// A toggle qualifier has no value; do not report its line end as one.
+		result.SetToken(nil)
+		return nil
+	})
 
 	valueParsers := []pars.Parser{quotedParser, literalParser, toggleParser}
 
